@@ -152,3 +152,20 @@ def finish(c):
     except ns.Stuck:
         c.outcome = ('notdone', None)
     return c.outcome
+
+
+def effect_reason(c, transfer, size):
+    """a transfer that reports success must have its complete effect (C01/C02 oracles in short)"""
+    st = c.outcome[0]
+    if st != 'ok':
+        return None
+    if c.s3.bad:
+        return c.s3.bad
+    if transfer.startswith('up-') or transfer == 'copy':
+        blobs = c.s3.objects.get('key')
+        if blobs is None or not F.tiles_in_order(F.segs_of(blobs), 0, size):
+            return 'success with an incomplete / wrong destination object'
+        return None
+    if transfer.startswith('down-'):
+        return H.dest_content_reason(c, transfer[len('down-'):], size)
+    return None
